@@ -226,7 +226,7 @@ package zygo
 // Data-structure invariant of the symbol tables (shared by an interpreter
 // family): only the listed functions write them.
 //@ typeinv C19 Zlisp | symtable, revsymtable | (*Zlisp).MakeSymbol, NewZlispWithFuncs, (*Zlisp).Clone, (*Zlisp).Duplicate | bij(self)
-//@ macro bij(env *Zlisp) bool = forall(n, string, has(env.symtable, n) ==> has(env.revsymtable, env.symtable[n]) && env.revsymtable[env.symtable[n]] == n)
+//@ macro bij(env *Zlisp) bool = env.symtable != nil && env.revsymtable != nil && forall(n, string, has(env.symtable, n) ==> has(env.revsymtable, env.symtable[n]) && env.revsymtable[env.symtable[n]] == n)
 //@ |  && forall(k, int, has(env.revsymtable, k) ==> has(env.symtable, env.revsymtable[k]) && env.symtable[env.revsymtable[k]] == k)
 
 //@ func (*Zlisp).DetectSigils
@@ -234,7 +234,6 @@ package zygo
 //@ C19 ensures sym != nil ==> sym.name == old(sym.name) && sym.number == old(sym.number)
 
 //@ func (*Zlisp).MakeSymbol
-//@ requires env != nil
 //@ requires bij(env)
 //@ C19 modifies env.nextsymbol, map(env.symtable), map(env.revsymtable)
 //@ C19 ensures inv: bij(env)
@@ -250,7 +249,6 @@ package zygo
 // every symbol that exists when it is generated (and therefore from every
 // earlier generated symbol).
 //@ func (*Zlisp).GenSymbol
-//@ requires env != nil
 //@ requires bij(env)
 //@ C19 ensures inv: bij(env)
 //@ C19 ensures fresh-name: let(nm, r0.name, !old(has(env.symtable, nm))) && has(env.symtable, r0.name) && env.symtable[r0.name] == r0.number
